@@ -101,7 +101,16 @@ def dep_model(rng, isa, mem=True, bumps=True):
                 ipats.append(_with_role(base, o["role"]))
             e = {"name": name, "operands": ipats}
             if hidden:
-                e["hidden_operands"] = [{"class": "flag", "name": f, "source": "s" in r, "destination": "d" in r} for f, r in hidden]
+                hops = []
+                for f, r in hidden:
+                    if f.startswith("reg:"):
+                        nm = f[4:]
+                        h = {"class": "register", "name": nm} if isa == "x86" else {"class": "register", "prefix": nm[0], "name": nm[1:]}
+                    else:
+                        h = {"class": "flag", "name": f}
+                    h["source"], h["destination"] = "s" in r, "d" in r
+                    hops.append(h)
+                e["hidden_operands"] = hops
             if zero:
                 e["breaks_dependency_on_equal_operands"] = True
             if operation:
@@ -137,6 +146,10 @@ def dep_model(rng, isa, mem=True, bumps=True):
     zhid = [(f, "d") for f in rng.sample(FLAGS[isa], rng.randint(0, 2))]
     add("zi0a", [{"kind": "reg", "role": r, "cls": "g"} for r in zr], hidden=zhid, zero=True)
     add("zv0a", [{"kind": "reg", "role": r, "cls": "v"} for r in (["s", "s", "d"] if isa == "x86" else ["d", "s", "s"])], zero=True)
+    # implicit register operands (x86 mul / cwd / blendv style): family 'a' / register 0 is always in the register pools
+    hreg = "reg:" + (rng.choice(["rax", "eax", "ax", "al"]) if isa == "x86" else rng.choice(["x0", "w0"]))
+    add("hr0a", [{"kind": "reg", "role": "s", "cls": "g"}], hidden=[(hreg, rng.choice(["d", "sd"]))])
+    add("hr1a", [{"kind": "reg", "role": "d", "cls": "g"}], hidden=[(hreg, "s")])
     # flag consumer / producer pair
     add("fw0a", [{"kind": "reg", "role": "s", "cls": "g"}, {"kind": "reg", "role": "s", "cls": "g"}], hidden=[(f, "d") for f in FLAGS[isa]])
     add("fr0a", [{"kind": "reg", "role": "d", "cls": "g"}] if isa == "aarch64" else [{"kind": "reg", "role": "d", "cls": "g"}],
@@ -191,9 +204,13 @@ class Pool:
         if isa == "x86":
             self.g = rng.sample(X86_GPR_FAMS, ng or rng.randint(3, 6))
             self.v = rng.sample(range(0, 32), nv or rng.randint(2, 4))
+            if "a" not in self.g:
+                self.g[-1] = "a"
         else:
             self.g = rng.sample(range(0, 29), ng or rng.randint(3, 6))
             self.v = rng.sample(range(0, 32), nv or rng.randint(2, 4))
+            if 0 not in self.g:
+                self.g[-1] = 0
 
     def reg(self, rng, cls, wide=False, cls_pat=None):
         if self.isa == "x86":
@@ -303,7 +320,10 @@ def instantiate(rng, isa, form, pool, mem=None, regs=None, imm=None):
         for r in regnames:
             writes.add(fam_of(isa, r))
         for f, role in form["hidden"]:
-            flag_writes.add(f)
+            if f.startswith("reg:"):
+                writes.add(fam_of(isa, f[4:]))
+            else:
+                flag_writes.add(f)
     else:
         for o, r in zip(regops, regnames):
             if "s" in o["role"]:
@@ -311,6 +331,12 @@ def instantiate(rng, isa, form, pool, mem=None, regs=None, imm=None):
             if "d" in o["role"]:
                 writes.add(fam_of(isa, r))
         for f, role in form["hidden"]:
+            if f.startswith("reg:"):
+                if "s" in role:
+                    reads.add(fam_of(isa, f[4:]))
+                if "d" in role:
+                    writes.add(fam_of(isa, f[4:]))
+                continue
             if "s" in role:
                 flag_reads.add(f)
             if "d" in role:
